@@ -223,6 +223,17 @@ def ieval(e, env):
             while p < x:
                 p *= 2
             return p
+        if re.search(r"(Try::branch|Option::<T>::ok_or|Option::<T>::ok_or_else|expect_not_yet_validated|Option::<T>::unwrap_or_default)$", fn):
+            return ieval(e[2][0], env)
+        if re.search(r"::checked_sub$", fn):
+            x, y = ieval(e[2][0], env), ieval(e[2][1], env)
+            if x < y:
+                raise NoEval("checked_sub underflow")      # the None arm: the caller decides what an undefined point means
+            return x - y
+        if re.search(r"::(checked_add|wrapping_add|saturating_add)$", fn):
+            return ieval(e[2][0], env) + ieval(e[2][1], env)
+        if re.search(r"::saturating_sub$", fn):
+            return max(0, ieval(e[2][0], env) - ieval(e[2][1], env))
         if re.search(r"cmp::min$|Ord::min$", fn):
             return min(ieval(x, env) for x in e[2])
         if re.search(r"cmp::max$|Ord::max$", fn):
